@@ -403,6 +403,7 @@ def generic_rules(ctx, rule='RG'):
     n += blocking_under_lock_rules(ctx, rule, paths, only)
     n += language_pitfall_rules(ctx, rule, paths, only)
     n += undefined_name_rules(ctx, rule, paths, only)
+    n += argument_order_rules(ctx, rule, paths, only)
     return n
 
 
@@ -998,4 +999,38 @@ def undefined_name_rules(ctx, rule, paths, only=None):
             n += 1
             ctx.inst(rule, f, 'every-name-resolves', not missing.get(q), 'names read in %s that nothing binds (no local, module-level or builtin binding): %s '
                      '- reaching the line raises NameError' % (q, sorted(missing.get(q, ()))))
+    return n
+
+
+def argument_order_rules(ctx, rule, paths, only=None):
+    """Two arguments that are passed under each other's name: `f(cb, port, channel, channel_mask, port_mask)` where f is declared
+    `f(cb, port, channel, port_mask, channel_mask)`.  The callee is resolved by name when every definition of that name in the
+    package has the same parameter list; only plain-name arguments that ARE parameter names of the callee are compared, and only a
+    crossed pair is reported (x passed as y AND y passed as x)."""
+    from .unrefactor import _package_signatures
+    m = ctx.model
+    sigs = _package_signatures(m)
+    n = 0
+    for path in paths:
+        for f in m.mod(path).all_funcs():
+            if only is not None and (path, f.qualname) not in only:
+                continue
+            crossed = []
+            for c in walk_own(f.node):
+                if not isinstance(c, ast.Call) or any(isinstance(a, ast.Starred) for a in c.args):
+                    continue
+                fn = c.func
+                cand = sigs.get(fn.id) if isinstance(fn, ast.Name) else sigs.get('.' + fn.attr) if isinstance(fn, ast.Attribute) and fn.attr != '__init__' else None
+                if not cand or len(cand) != 1 or None in cand:
+                    continue
+                params = list(next(iter(cand)))
+                names = [a.id if isinstance(a, ast.Name) else None for a in c.args]
+                for i, a in enumerate(names):
+                    if a is None or i >= len(params) or a == params[i] or a not in params:
+                        continue
+                    j = params.index(a)
+                    if j < len(names) and names[j] == params[i] and i < j:
+                        crossed.append('%s: %s <-> %s (line %d)' % (norm(c.func), a, names[j], c.lineno))
+            n += 1
+            ctx.inst(rule, f, 'arguments-under-their-own-names', not crossed, 'arguments passed under each other\'s parameter name: %s' % (crossed or 'none'))
     return n
